@@ -21,7 +21,8 @@ for d in sorted(os.listdir(os.path.join(HERE, "seeded"))):
         m = re.match(r"(C\d+) rc=(\d+) violations=(\d+)\s*(.*)", line)
         if m:
             sigs = re.findall(r"signature: (\S+)", m.group(4))
-            res.append({"check": m.group(1), "tier": "quick", "exit": int(m.group(2)), "violation_lines": int(m.group(3)), "signatures": sigs})
+            res.append({"check": m.group(1), "tier": "quick", "exit": int(m.group(2)), "violation_lines": int(m.group(3)), "signatures": sigs,
+                        "all_required_jobs_exhausted": "exhaustive=True" in m.group(4)})
     meta["caught_by"] = [r["check"] for r in res if r["exit"] == 1]
     meta["runs"] = res
     json.dump(meta, open(mp, "w"), indent=1)
